@@ -6,7 +6,7 @@
    (a along x, b in the xy plane: [lower_tri_pos]). *)
 From Coq Require Import ZArith List Bool Lia.
 Import ListNotations.
-Require Import MD.PBC.Model MD.PBC.Rounding MD.PBC.Proofs MD.PBC.GenTie.
+Require Import MD.PBC.Model MD.PBC.Rounding MD.PBC.Proofs MD.PBC.GenTie MD.PBC.Check MD.PBC.CheckSound.
 Open Scope Z_scope.
 
 (* the four rounding rules found in the code (roundf, floorf(x+.5), the SSE round, python round) all
@@ -158,6 +158,18 @@ Print Assumptions distances_t_entry.
 Theorem source_matches_model : gen_tie_statement.
 Proof. exact gen_tie. Qed.
 Print Assumptions source_matches_model.
+
+(* ---- the comparison evaluated by the correspondence run (PBC/Check.v) compares with the functions above:
+   outside a tie of the box reduction, verdict 0 = "lattice shift equals path_coef" resp. "squared norm of
+   path_disp lies in the interval derived from the reported float" *)
+Theorem checker_compares_with_model : forall p G B r,
+  reduce_tie G (reduce (rmode_of p) B) = false ->
+  (forall n, shift_verdict p G B r n = 0 -> n = path_coef p B r) /\
+  (forall lo hi, norm_verdict p G B r (lo, hi) = 0 -> lo <= norm2 (path_disp p B r) <= hi).
+Proof.
+  intros p G B r Ht. split; [intros n; apply shift_verdict_sound | intros lo hi; apply norm_verdict_sound]; exact Ht.
+Qed.
+Print Assumptions checker_compares_with_model.
 
 (* ---- non-vacuity: a skewed, unreduced cell and a far-away separation satisfy every hypothesis used above *)
 Example hypotheses_satisfiable :
